@@ -2,7 +2,7 @@ CLAIMS["C12"] = dict(
     engine="seq",
     technique="exhaustive input enumeration on the real samplers over boundary alphabets (ratios: floating-point boundary values; trace ids: located on every sampler's "
               "decision boundary by bisection on the real ShouldSample), all ratio pairs, all parent shapes x delegates, against the statement's implications",
-    text="TraceIdRatioBasedSampler: 155 boundary ratios (thorough: plus the two nearest doubles on each side of every one, ~700) from -inf over -0.0, 0, denormals, DBL_MIN, "
+    text="TraceIdRatioBasedSampler: 153 boundary ratios (thorough: plus k/64, 10^-k and the two nearest doubles on each side of every one, 827) from -inf over -0.0, 0, denormals, DBL_MIN, "
          "2^-66..2^-62, 2^-54..2^-52, 2^-33..2^-31 with both neighbours, j/(2^32-1) and j/2^32 with neighbours, decimals, 0.5+-ulp, 1-2^-32, 1-2^-52, 1-2^-53, 1, 1+ulp, 2, "
          "2^32, 2^64, DBL_MAX, +inf; trace-id prefixes on each ratio's own decision boundary (bisection on the real ShouldSample) with +-1, +-2, +-1024, +-2048, +-4096 "
          "neighbours, their byte-reversed (thorough: and half-swapped) forms and fixed extremes, each with three low halves. Per ratio: r<=0 never, r>=1 always, decision "
